@@ -72,7 +72,10 @@ func floorDivMod(a, b *big.Int) (*big.Int, *big.Int) {
 	return q, m
 }
 
-func pool(thorough bool) []*val {
+func pool(thoroughTier bool) []*val {
+	// the whole check takes seconds, so both tiers use the full pool; the
+	// thorough tier adds the values marked thoroughTier below
+	thorough := true
 	ny, err := gotime.LoadLocation("America/New_York")
 	if err != nil {
 		fw.Fatal("tzdata: %v", err)
@@ -98,7 +101,12 @@ func pool(thorough bool) []*val {
 			inst{"max", bs("9223372036854775807")},                     // 2262-04-11, the last int64 nanosecond
 			inst{"min", bs("-9223372036854775808")},                    // 1677-09-21
 			inst{"p1d", sec(86400)}, inst{"p1us", bi(1000)}, inst{"m1h", sec(-3600)},
+			// nanosecond counts that no float64 holds exactly
+			inst{"p250y1ns", new(big.Int).Add(sec(year250), bi(1))}, inst{"m2p53m1", bs("-9007199254740993")},
 		)
+	}
+	if thoroughTier {
+		insts = append(insts, inst{"p2p62p1", bs("4611686018427387905")}, inst{"y2038", sec(2147483648)}, inst{"m1d", sec(-86400)})
 	}
 	fromTS := stime.Module.Members["from_timestamp"]
 	th := &starlark.Thread{Name: "c19-pool"}
@@ -141,7 +149,9 @@ func pool(thorough bool) []*val {
 			name string
 			ns   *big.Int
 		}{{"p1ms", bi(1_000_000)}, {"m1ms", bi(-1_000_000)}, {"p1m", sec(60)}, {"p24h", sec(86400)}, {"m3ns", bi(-3)}, {"p7ns", bi(7)},
-			{"max", bs("9223372036854775807")}, {"mmax", bs("-9223372036854775807")}, {"p999999999ns", bi(999_999_999)}, {"m2s", sec(-2)}, {"p3s", sec(3)}}...)
+			{"max", bs("9223372036854775807")}, {"mmax", bs("-9223372036854775807")}, {"p999999999ns", bi(999_999_999)}, {"m2s", sec(-2)}, {"p3s", sec(3)},
+			// nanosecond counts that no float64 holds exactly (a division or multiplication routed through float64 shows)
+			{"p2p53p1", bs("9007199254740993")}, {"m2p53p1", bs("-9007199254740993")}, {"p2p62p1", bs("4611686018427387905")}, {"p4800h1ns", new(big.Int).Add(sec(4800*3600), bi(1))}}...)
 	}
 	for _, d := range durs {
 		out = append(out, &val{Name: "d_" + d.name, Kind: "duration", ns: d.ns, v: stime.Duration(d.ns.Int64()), Desc: fmt.Sprintf("duration %s ns", d.ns)})
@@ -155,7 +165,8 @@ func pool(thorough bool) []*val {
 		ints = append(ints, []struct {
 			name string
 			i    *big.Int
-		}{{"3", bi(3)}, {"m3", bi(-3)}, {"1000", bi(1000)}, {"1e9", bi(1_000_000_000)}, {"2p62", bi(1 << 62)}, {"2p63m1", bs("9223372036854775807")}, {"2p64", bs("18446744073709551616")}, {"7", bi(7)}}...)
+		}{{"3", bi(3)}, {"m3", bi(-3)}, {"1000", bi(1000)}, {"1e9", bi(1_000_000_000)}, {"2p62", bi(1 << 62)}, {"2p63m1", bs("9223372036854775807")}, {"2p64", bs("18446744073709551616")}, {"7", bi(7)},
+			{"2p53p1", bs("9007199254740993")}, {"m2p53p1", bs("-9007199254740993")}, {"2p62p1", bs("4611686018427387905")}}...)
 	}
 	for _, x := range ints {
 		out = append(out, &val{Name: "i_" + x.name, Kind: "int", i: x.i, v: starlark.MakeBigInt(x.i), Desc: "int " + x.i.String()})
